@@ -83,6 +83,43 @@ def _direct_writes_sup(sup):
     return out
 
 
+def _failure_fails_root(sup, node, term):
+    """If the call at `node` returns Err, the root cannot return Ok: with the success edges of every test of
+    that result (and of the values it is propagated into) removed, no root return that may carry Ok is
+    reachable from the call. Also requires that the result is tested at all."""
+    if term["dest"]["pr"]:
+        return False
+    carr = carriers(sup, node, term["dest"]["l"])
+    succ_edges = []
+    for sn, t, how in switches_on_carriers(sup, carr):
+        if how != "discr":
+            continue
+        sb = sup.body_of(sn)
+        e = enum_edge(sb, sn[1], 0)  # Ok / Continue
+        if e:
+            succ_edges.append((sn, e[1], (sn[0], e[2])))
+    if not succ_edges:
+        return False
+    ps = PathSens(sup)
+    entry_states = ps.explore([(sup.entry, {})])
+    starts = []
+    for f in entry_states.get(node, []):
+        for lab, m, f2 in ps.step(node, f):
+            if lab not in ("call", "maycall"):
+                starts.append((m, f2))
+    reached = ps.explore(starts, removed_edges=succ_edges)
+    for n in reached:
+        if n[0] or sup.root.blocks[n[1]]["term"]["k"] != "return":
+            continue
+        for st in reached[n]:
+            f_end = dict(st)
+            for s_ in sup.root.blocks[n[1]]["stmts"]:
+                ps._stmt(f_end, (), s_)
+            if f_end.get(((), 0)) != ("var", 1):
+                return False
+    return True
+
+
 def _success_requires(sup, node):
     """Every return of the root that may carry Ok has passed `node`: with the node removed, each state
     reaching the root's return knows `_0` to be the Err variant (variant-aware exploration; an unknown
@@ -132,9 +169,8 @@ def r03_1(ctx):
                 ctx.ob(f"{key}:marker-before-document", before, sup.site(wn), "'---' precedes the serialised document" if before else "'---' is not written before the document")
             ctx.ob(f"{key}:framing-write-once", not sup.on_cycle(wn), sup.site(wn), "framing write is not in a loop")
             # the framing write's result is propagated (`?`), directly or after being returned by a helper
-            carr = carriers(sup, wn, ws[0][1]["dest"]["l"])
-            used = any((fn_of(tt) or {}).get("def") == "std::ops::Try::branch" and is_place(tt["args"][0]) and (n_[0], tt["args"][0]["p"]["l"]) in carr for n_, _, tt in sup.calls())
-            ctx.ob(f"{key}:framing-error-propagates", used, sup.site(wn), "a failing framing write fails the translation" if used else "the framing write's error is ignored")
+            used = _failure_fails_root(sup, wn, ws[0][1])
+            ctx.ob(f"{key}:framing-error-propagates", used, sup.site(wn), "a failing framing write fails the translation" if used else "the framing write's error is ignored (a path on which the write failed still returns Ok)")
 
 
 @rule("R03.2", 7, "one sink per translator: outputs are constructed only by the dispatcher constructor, which only the translator constructor calls; entry points reborrow the same field", ["C03"])
@@ -754,7 +790,7 @@ def r05_5(ctx):
                     off = trace(cn, calls[0][1]["args"][1])
                     ok = False
                     if off.origin and off.origin[0] == "call" and (fn_of(off.origin[2]) or {}).get("local") and off.origin[2]["args"]:
-                        ev = trace(cn, off.origin[2]["args"][0])
+                        ev = trace(cn, off.origin[2]["args"][0], passthrough_extra=("std::result::Result::<T, E>::map_err",))
                         ok = bool(ev.origin and ev.origin[0] == "call" and _is_parser_poll(lib, cn, ev.origin[2]) and cn.local_ty(off.origin[2]["dest"]["l"]) == "u64")
                 done = True
                 ctx.ob("document-end-takes-chunk", ok, site(cn, calls[0][0]) if calls else site(cn), "on DOCUMENT_END the captured bytes up to the event's end offset are moved out of the buffer" if ok else "the capture buffer is not emptied at the end of a document: it grows with the stream")
